@@ -5,8 +5,10 @@ CONSTANTS
   MaxTail = 4
   ElemTail = 1
   NestTail = 3
+  DeepTail = 2
   Nums = {1}
   MaxOperands = 1
   WithNeg = FALSE
+  CmpOps = {}
 INVARIANTS TypeOK FoldInv LeftFold SourceOrder Distinguishes Export
-PROPERTY Terminates
+PROPERTY Terminates ReadOnly
